@@ -44,6 +44,8 @@ module Nat :
 
   val ltb : nat -> nat -> bool
 
+  val max : nat -> nat -> nat
+
   val divmod : nat -> nat -> nat -> nat -> nat * nat
 
   val div : nat -> nat -> nat
@@ -259,6 +261,8 @@ module Z :
 
   val abs : z -> z
 
+  val to_nat : z -> nat
+
   val to_N : z -> n
 
   val of_nat : nat -> z
@@ -289,6 +293,8 @@ val bits_of : nat -> n -> bits
 val zeros : nat -> bits
 
 val ones : nat -> bits
+
+val set_nth : nat -> 'a1 -> 'a1 list -> 'a1 list
 
 val set_nth_opt : nat -> 'a1 -> 'a1 list -> 'a1 list option
 
@@ -639,5 +645,76 @@ val nodes_of_sx : sx list -> node list option
 val level_info : imm res -> nat -> sx
 
 val run_hashes : sx -> sx
+
+type cinfo = { ci_node : nat; ci_cache : bool; ci_wt : nat;
+               ci_refs : nat list; ci_hashcount : nat; ci_new : z;
+               ci_root : bool }
+
+val set_ci : cinfo list -> nat -> cinfo -> cinfo list
+
+val get_ci : cinfo list -> nat -> cinfo
+
+val with_new : cinfo -> z -> cinfo
+
+val with_wt : cinfo -> nat -> cinfo
+
+val with_cache : cinfo -> cinfo
+
+val with_refs : cinfo -> nat list -> cinfo
+
+val with_root : cinfo -> cinfo
+
+val eSer : n
+
+val find_hash : bytes -> (bytes * nat) list -> nat option
+
+val import_cell :
+  node list -> bytes res list -> nat -> cinfo list -> (bytes * nat) list ->
+  nat -> nat -> ((cinfo list * (bytes * nat) list) * nat) res
+
+val maxCellWhs : nat
+
+val pass1_cell : cinfo list -> nat -> cinfo list
+
+val pass2_cell : cinfo list -> nat -> cinfo list
+
+type force =
+| Previsit
+| Visit
+| Allocate
+
+val revisit :
+  nat -> cinfo list -> nat list -> nat -> force -> ((cinfo list * nat
+  list) * z) res
+
+val for_roots : ('a1 -> nat -> 'a1 res) -> 'a1 -> nat list -> 'a1 res
+
+val reorder :
+  cinfo list -> nat list -> ((cinfo list * nat list) * nat list) res
+
+val import_roots :
+  node list -> bytes res list -> nat list -> ((cinfo list * nat list) * nat
+  list) res
+
+val be_n : nat -> n -> bytes
+
+val byte_len : n -> nat
+
+val serialize :
+  node list -> bytes res list -> nat list -> bool -> bool -> bool -> bytes res
+
+val hashes_of : node list -> bytes res list
+
+val reach_from : node list -> nat -> bool list -> bool list
+
+val mem_bytes : bytes -> bytes list -> bool
+
+val distinct : bytes list -> bytes list -> bytes list
+
+val all_ok : 'a1 res list -> 'a1 list option
+
+val certificate : node list -> nat -> bytes -> bool
+
+val run_ser : sx -> sx
 
 val run : string -> sx -> sx
